@@ -1777,6 +1777,10 @@ func (c *Client) doSetup(
 		th.InterleavedIDs = &[2]int{ch, ch + 1}
 	}
 
+	if medi.IsBackChannel && !c.RequestBackChannels {
+		return nil, fmt.Errorf("we are setupping a back channel but we did not request back channels")
+	}
+
 	mediaURL, err := medi.URL(baseURL)
 	if err != nil {
 		return nil, err
@@ -1787,10 +1791,6 @@ func (c *Client) doSetup(
 	}
 
 	if medi.IsBackChannel {
-		if !c.RequestBackChannels {
-			return nil, fmt.Errorf("we are setupping a back channel but we did not request back channels")
-		}
-
 		header["Require"] = base.HeaderValue{"www.onvif.org/ver20/backchannel"}
 	}
 
